@@ -3,6 +3,9 @@ package main
 // Forward symbolic execution over the loop-cut CFG of one go/ssa function (NaiveForm).
 
 import (
+	"runtime"
+	"os"
+	"os/exec"
 	"fmt"
 	"go/ast"
 	"go/token"
@@ -43,6 +46,7 @@ type loopInfo struct {
 
 type FuncExec struct {
 	curSiteFrame *CallSiteSpec
+	pruned int
 	clauseFaults []string // contract clauses that could not be evaluated against the current code
 	havocNames map[string]bool // contract-less callees abstracted by the import-closure rule
 	envWrites map[string][]string // heap key -> refs havocked at Lock (interference, not this function's writes)
@@ -300,10 +304,8 @@ func (fx *FuncExec) skolemize(st *State, ob *Obligation) {
 		}
 	}
 	ob.goal = goal
-	if len(recs) == 0 {
-		// a ground goal: the hints themselves are the instantiation terms
-		terms = append(terms, hints...)
-	}
+	// the hints themselves are instantiation terms too (e.g. the position a loop iteration looks at)
+	terms = append(terms, hints...)
 	n := 0
 	for _, qf := range fx.qfacts {
 		if qf.prefix > ob.prefix {
@@ -717,6 +719,16 @@ func (fx *FuncExec) execBlock(b *ssa.BasicBlock, st *State) {
 func (fx *FuncExec) setEdge(b *ssa.BasicBlock, si int, st *State, cond string) {
 	succ := b.Succs[si]
 	c := fx.em.Define(fmt.Sprintf("e%d_%d", b.Index, succ.Index), SBool, and(st.pc, cond))
+	if fx.fc != nil && fx.fc.Prune && fx.discard == 0 && cond != "true" && strings.HasPrefix(succ.Comment, "switch.") && fx.edgeInfeasible(st, c) {
+		// `prune`: the edge is refuted by the solver under everything assumed so far - dead code for
+		// this contract's precondition/invariants; not following it is sound and keeps queries small
+		fx.pruned++
+		fx.assumptions[fmt.Sprintf("prune: %d control-flow edges refuted by z3 under the contract's assumptions were not followed", fx.pruned)] = true
+		if fx.pruned > 1 {
+			delete(fx.assumptions, fmt.Sprintf("prune: %d control-flow edges refuted by z3 under the contract's assumptions were not followed", fx.pruned-1))
+		}
+		return
+	}
 	if fx.isBackEdge(b, succ) {
 		n := st.Clone()
 		n.pc = c
@@ -724,6 +736,48 @@ func (fx *FuncExec) setEdge(b *ssa.BasicBlock, si int, st *State, cond string) {
 		return
 	}
 	fx.edgeOut[[2]int{b.Index, si}] = incoming{st: st, cond: c}
+}
+
+// edgeInfeasible asks z3 whether the edge condition is unsatisfiable under the assertions made so far.
+func (fx *FuncExec) edgeInfeasible(st *State, c string) bool {
+	// the quantified assumptions in scope are instantiated at the contract's hints, as for goals
+	ob := &Obligation{goal: "false", pc: c, prefix: len(fx.em.lines)}
+	fx.skolemize(st, ob)
+	var b strings.Builder
+	b.WriteString(fx.em.Prelude())
+	for _, l := range fx.em.lines {
+		if strings.HasPrefix(l, "(assert") && (strings.Contains(l, "(forall ") || strings.Contains(l, "(exists ")) {
+			continue // quantifier-free relaxation: fewer assumptions, so `unsat` stays sound
+		}
+		b.WriteString(l)
+		b.WriteByte('\n')
+	}
+	for _, l := range ob.extra {
+		b.WriteString(l)
+		b.WriteByte('\n')
+	}
+	b.WriteString("(assert " + c + ")\n(check-sat)\n")
+	f, err := os.CreateTemp("", "goverif-prune-*.smt2")
+	if err != nil {
+		return false
+	}
+	defer os.Remove(f.Name())
+	f.WriteString(b.String())
+	f.Close()
+	// wall-clock budget stretched when the machine is oversubscribed (as the driver does)
+	budget := 2
+	if b, err := os.ReadFile("/proc/loadavg"); err == nil {
+		var l1 float64
+		fmt.Sscanf(string(b), "%f", &l1)
+		if f := l1 / float64(runtime.NumCPU()); f > 1 {
+			if f > 8 {
+				f = 8
+			}
+			budget = int(2*f + 0.5)
+		}
+	}
+	out, _ := exec.Command("z3-new", fmt.Sprintf("-T:%d", budget), f.Name()).Output()
+	return strings.HasPrefix(strings.TrimSpace(string(out)), "unsat")
 }
 
 // ---- values -----------------------------------------------------------------------------------------
@@ -1969,6 +2023,11 @@ func (fx *FuncExec) afterStore(st *State, x *ssa.Store) {
 						name := pt.Elem().Underlying().(*types.Struct).Field(fa.Field).Name()
 						by[name] = append(by[name], in)
 						fx.storeField[in] = name
+					}
+					if g, ok := s.Addr.(*ssa.Global); ok {
+						// a store to a package-level variable is named after the variable
+						by[g.Name()] = append(by[g.Name()], in)
+						fx.storeField[in] = g.Name()
 					}
 				}
 			}
